@@ -3189,6 +3189,28 @@ class PyCdlib:
 
         return num_bytes_to_add
 
+    def _check_new_iso_path(self, iso_path):
+        # type: (str) -> None
+        """
+        An internal method to check that a new file can be created at the
+        given ISO9660 path, without modifying anything.
+
+        Parameters:
+         iso_path - The ISO9660 path the new file will be created at.
+        Returns:
+         Nothing.
+        """
+        iso_path_bytes = utils.normpath(iso_path)
+        if not self.rock_ridge and self.interchange_level < 4:
+            _check_path_depth(iso_path_bytes)
+        (name, parent) = self._iso_name_and_parent_from_path(iso_path_bytes)
+        _check_iso9660_filename(name, self.interchange_level)
+        if not parent.is_dir():
+            raise pycdlibexception.PyCdlibInvalidInput('Trying to add a child to a record that is not a directory')
+        for child in parent.children:
+            if child.file_ident == name:
+                raise pycdlibexception.PyCdlibInvalidInput('Failed adding duplicate name to parent')
+
     def _check_new_joliet_path(self, joliet_path):
         # type: (str) -> None
         """
@@ -5245,8 +5267,6 @@ class PyCdlib:
                 bi_table.new(self.pvd, boot_dirrecord.inode, orig_len,
                              self._calculate_eltorito_boot_info_table_csum(data_fp, data_len))
 
-            boot_dirrecord.inode.add_boot_info_table(bi_table)
-
         system_type = 0
         if media_name == 'hdemul':
             with inode.InodeOpenData(boot_dirrecord.inode, self.logical_block_size) as (data_fp, data_len):
@@ -5264,21 +5284,28 @@ class PyCdlib:
                                                    media_name, system_type, efi,
                                                    bootable)
         else:
-            # Step 2.
+            # Validate the names of the boot catalog before anything is
+            # modified, so that a refused call leaves the ISO untouched.
+            self._check_new_iso_path(bootcatfile)
+            if joliet_bootcatfile:
+                self._check_new_joliet_path(joliet_bootcatfile)
+            if udf_bootcatfile:
+                self._check_new_udf_path(udf_bootcatfile)
+
+            # Step 2 and 3.  Creating the catalog validates the platform and
+            # media type; only start tracking the Boot Record and the catalog
+            # once that has worked.
             br = headervd.BootRecord()
             br.new(b'EL TORITO SPECIFICATION')
+            catalog = eltorito.EltoritoBootCatalog(br)
+            catalog.new(br, boot_dirrecord.inode, sector_count, boot_load_seg,
+                        media_name, system_type, platform_id, bootable)
             self.brs.append(br)
+            self.eltorito_boot_catalog = catalog
             # On a UDF ISO, adding a new Boot Record doesn't actually increase
             # the size, since there are a bunch of gaps at the beginning.
             if not self._has_udf:
                 num_bytes_to_add += self.logical_block_size
-
-            # Step 3.
-            self.eltorito_boot_catalog = eltorito.EltoritoBootCatalog(br)
-            self.eltorito_boot_catalog.new(br, boot_dirrecord.inode,
-                                           sector_count, boot_load_seg,
-                                           media_name, system_type, platform_id,
-                                           bootable)
 
             # Step 4.
             rrname = ''
@@ -5292,6 +5319,9 @@ class PyCdlib:
                                              False, bootcatfile, rrname,
                                              joliet_bootcatfile,
                                              udf_bootcatfile, None, True)
+
+        if boot_info_table:
+            boot_dirrecord.inode.add_boot_info_table(bi_table)
 
         self._finish_add(0, num_bytes_to_add)
 
